@@ -2,10 +2,10 @@ SPECIFICATION Spec
 CONSTANTS
   K = 3
   Stranded = FALSE
-  Mode = "sum"
-  Thr = 1
   Inputs <- In_K3_7
+  Holes = TRUE
+  FixHairpin = TRUE
+  FixComma = TRUE
   Dump = FALSE
-INVARIANTS Valid NoPanic AvailDisjoint LinksOK ExportOK Emit
-PROPERTY AvailShrinks
+INVARIANTS TypeOK GfaSafe GfaDone JsonDone JsonSafe Emit
 CHECK_DEADLOCK FALSE
